@@ -1,9 +1,10 @@
-import CoapVerif.Model.LinkFormat
+import CoapVerif.Model.WkBlock
 /- Line-protocol driver for C20 (/.well-known/core).
 
    wk <table> <filter> <windows>     M: coap_print_wellknown_lkd per window | S: window of the listing
    match <text> <pattern> <pfx> <sub>  M: match() | S: matchSpec
    body <table> <filter>             M: hnd_get_wellknown_lkd's body | S: listing
+   getx <table> <szx> <xfers>:<order>  interleaved transfers, see `getxStep`
    get <table> <queries> <szx>       M: body for the filter the GET handler takes, number of Block2 responses | S: listing, number
                                      <queries>: `N`/`-` none, else `+`-separated Uri-Query option values (hex, `-` = empty value)
 
@@ -19,6 +20,7 @@ import CoapVerif.Model.LinkFormat
 -- DRIVER-OPS: match => Coap.Driver.LinkFormat.matchStep
 -- DRIVER-OPS: body => Coap.Driver.LinkFormat.bodyStep
 -- DRIVER-OPS: get => Coap.Driver.LinkFormat.getStep
+-- DRIVER-OPS: getx => Coap.Driver.LinkFormat.getxStep
 namespace Coap.Driver.LinkFormat
 open Coap Coap.LF Coap.M.LF
 
@@ -144,6 +146,37 @@ def getStep (args : List String) : String :=
        | .ok b => "M " ++ hexOrDash b ++ ":" ++ toString (nblocks b.length sz)
        | .rej => "M rej"
        | .oob => "M oob") ++ " | S " ++ hexOrDash l ++ ":" ++ toString (nblocks l.length sz)
+    | _, _, _ => "bad-op"
+  | _ => "bad-op"
+
+/-- `<session>@<queries>` -/
+def parseXfer (s : String) : Option Xfer :=
+  match s.splitOn "@" with
+  | [sid, q] => do let sid ← sid.toNat?; let o ← parseOpts q; pure ⟨sid, o⟩
+  | _ => none
+
+def parseOrder (s : String) : Option (List Nat) :=
+  s.toList.mapM fun c => if '0' ≤ c ∧ c ≤ '9' then some (c.toNat - 48) else none
+
+/-- `getx <table> <szx> <xfers>:<order>`: interleaved block-wise GETs.  M: the model of the Block2 response cache
+(`runX`, then every unfinished transfer is completed) | S: per transfer its own listing and block count -/
+def getxStep (args : List String) : String :=
+  match args with
+  | [t, szx, script] =>
+    match parseTable t, szx.toNat?, script.splitOn ":" with
+    | some t, some szx, [xw, ow] =>
+      match (xw.splitOn "/").mapM parseXfer, parseOrder ow with
+      | some xs, some order =>
+        let st := runX t szx xs SState.init order
+        let st := (List.range xs.length).foldl (fun st i => drainX t szx xs 5001 st i) st
+        let sz := 2 ^ (szx + 4)
+        "M " ++ String.intercalate "," ((List.range xs.length).map fun i =>
+            let x := st.x i
+            (if x.failed then "bad" else hexOrDash x.buf) ++ ":" ++ toString x.next) ++
+        " | S " ++ String.intercalate "," (xs.map fun xf =>
+            let l := getListing t xf.opts
+            hexOrDash l ++ ":" ++ toString (nblocks l.length sz))
+      | _, _ => "bad-op"
     | _, _, _ => "bad-op"
   | _ => "bad-op"
 
